@@ -1033,6 +1033,8 @@ class Exec:
         rt = c.yields if c.yields is not None else c.returns
         if c.yields is not None:
             res = self.fresh_value(dsl.SeqT(c.yields), "res", st)
+            # the callee's clauses may speak of where each value was yielded (src_): some such sequence exists
+            spec_env["src_"] = Seq(res.n, self.fresh_elems(dsl.TupT(dsl.Int, dsl.Int, dsl.Int), "src", st))
         elif rt is None:
             res = None
         else:
@@ -1532,6 +1534,8 @@ class Exec:
         env = dict(st.env)
         if i_val is not None:
             env["i_"] = i_val
+        for d, v in enumerate(st.ghost.get("lidx", ())):
+            env["i%d_" % d] = v          # indices of the enclosing for-loops (outermost = i0_)
         g = st.ghost.get("out")
         if g is not None:
             env["out_"] = Seq(g[0], g[1])
